@@ -33,19 +33,26 @@ type trFunc struct {
 	lean      string // Lean definition name
 	pure      bool
 	env       bool // takes the Env parameter
+	state     []string // "name:LeanType": package-level variables the function reads/writes (threaded as parameters and
+	// returned after the results), or "recv" for a receiver the method mutates (returned after the results)
+	maps []string // identifiers that are Go maps (indexing is a lookup with the zero value as default)
 }
 
 var trList = []trFunc{
-	{"CodeMatcher", "matcher", "Matcher.Match", "Matcher.Match", true, false},
-	{"CodeMatcher", "matcher", "Matcher.PreMatch", "Matcher.PreMatch", true, false},
-	{"CodeMatcher", "matcher", "Matcher.MatchRegexAndExpand", "Matcher.MatchRegexAndExpand", true, false},
-	{"CodeAgg", "aggregator", "Aggregator.AddMaybe", "Aggregator.AddMaybe", false, false},
-	{"CodeRoute", "route", "metricName", "metricName", true, false},
-	{"CodeRoute", "route", "SendAllMatch.Dispatch", "SendAllMatch.Dispatch", false, false},
-	{"CodeRoute", "route", "SendFirstMatch.Dispatch", "SendFirstMatch.Dispatch", false, false},
-	{"CodeHasher", "route", "ConsistentHasher.GetDestinationIndex", "ConsistentHasher.GetDestinationIndex", true, true},
-	{"CodeTable", "table", "Table.Dispatch", "Table.Dispatch", false, true},
-	{"CodeTable", "table", "Table.DispatchAggregate", "Table.DispatchAggregate", false, false},
+	{"CodeMatcher", "matcher", "Matcher.Match", "Matcher.Match", true, false, nil, nil},
+	{"CodeMatcher", "matcher", "Matcher.PreMatch", "Matcher.PreMatch", true, false, nil, nil},
+	{"CodeMatcher", "matcher", "Matcher.MatchRegexAndExpand", "Matcher.MatchRegexAndExpand", true, false, nil, nil},
+	{"CodeAgg", "aggregator", "Aggregator.AddMaybe", "Aggregator.AddMaybe", false, false, nil, nil},
+	{"CodeRoute", "route", "metricName", "metricName", true, false, nil, nil},
+	{"CodeRoute", "route", "SendAllMatch.Dispatch", "SendAllMatch.Dispatch", false, false, nil, nil},
+	{"CodeRoute", "route", "SendFirstMatch.Dispatch", "SendFirstMatch.Dispatch", false, false, nil, nil},
+	{"CodeHasher", "route", "ConsistentHasher.GetDestinationIndex", "ConsistentHasher.GetDestinationIndex", true, true, nil, nil},
+	{"CodeTable", "table", "Table.Dispatch", "Table.Dispatch", false, true, nil, nil},
+	{"CodeTable", "table", "Table.DispatchAggregate", "Table.DispatchAggregate", false, false, nil, nil},
+	{"CodeOrdered", "validate", "Ordered", "validate_Ordered", true, false, []string{"m:MapII", "h:Hasher64"}, []string{"m"}},
+	{"CodeKeepSafe", "destination", "keepSafe.Add", "keepSafe.Add", true, false, []string{"recv"}, nil},
+	{"CodeKeepSafe", "destination", "keepSafe.GetAll", "keepSafe.GetAll", true, false, []string{"recv"}, nil},
+	{"CodeRewriter", "rewriter", "RW.Do", "RW.Do", true, false, nil, nil},
 }
 
 // generated modules that import another generated module (a translated function calling a translated method)
@@ -55,7 +62,7 @@ var leanTypes = map[string]string{
 	"[]byte": "Bytes", "string": "Bytes", "[][]byte": "List Bytes", "bool": "Bool", "int": "Int", "uint32": "Int", "int64": "Int",
 	"uint16": "Int", "uint": "Int", "float64": "F64", "error": "Err",
 	"*Matcher": "Matcher", "Matcher": "Matcher", "*Table": "Table", "*SendAllMatch": "SendAllMatch", "*SendFirstMatch": "SendFirstMatch",
-	"*ConsistentHasher": "ConsistentHasher", "*Aggregator": "Aggregator",
+	"*ConsistentHasher": "ConsistentHasher", "*Aggregator": "Aggregator", "*keepSafe": "keepSafe", "RW": "RW",
 }
 
 // calls that are dropped (no effect on any modelled observable)
@@ -78,9 +85,12 @@ var effectMethods = map[string]bool{"Inc": true, "Add": true}
 // gives them the type `... -> Res value`)
 var spliceMethods = map[string]bool{"Dispatch": true, "AddMaybe": true}
 
+// methods that change their receiver (a local or threaded variable): `x.M(args)` as a statement is `x := x.M args`
+var mutatorMethods = map[string]bool{"Write": true, "Reset": true}
+
 var libFuncs = map[string]string{
 	"bytes.HasPrefix": "Lib.bytes_HasPrefix", "bytes.Contains": "Lib.bytes_Contains", "bytes.IndexByte": "Lib.bytes_IndexByte",
-	"bytes.Fields": "Lib.bytes_Fields", "bytes.Join": "Lib.bytes_Join", "sort.Search": "Lib.sort_Search", "len": "Lib.len",
+	"bytes.Fields": "Lib.bytes_Fields", "bytes.Join": "Lib.bytes_Join", "sort.Search": "Lib.sort_Search", "len": "Lib.len", "bytes.Replace": "Lib.bytes_Replace",
 }
 var identityCalls = map[string]bool{"[]byte": true, "string": true, "int": true, "uint32": true, "int64": true, "uint16": true}
 var identityMethods = map[string]bool{"Load": true}
@@ -113,6 +123,15 @@ type trCtx struct {
 	declared map[string]bool
 	nres     int
 	njoin    int
+}
+
+func (c *trCtx) isMap(n string) bool {
+	for _, m := range c.f.maps {
+		if m == n {
+			return true
+		}
+	}
+	return false
 }
 
 func (c *trCtx) pureWrap(s string) string {
@@ -257,6 +276,9 @@ func (c *trCtx) expr(e ast.Expr) string {
 	case *ast.SelectorExpr:
 		return par(c.expr(x.X)) + "." + lid(x.Sel.Name)
 	case *ast.IndexExpr:
+		if id, ok := x.X.(*ast.Ident); ok && c.isMap(id.Name) {
+			return "Lib.mapGet " + lid(id.Name) + " " + par(c.expr(x.Index))
+		}
 		return "Lib.idx " + par(c.expr(x.X)) + " " + par(c.expr(x.Index))
 	case *ast.SliceExpr:
 		if x.Slice3 {
@@ -322,6 +344,23 @@ func (c *trCtx) call(x *ast.CallExpr) string {
 	}
 	if fn == "make" && len(x.Args) == 2 && src(x.Args[0]) == "[]byte" {
 		return "Lib.makeBytes " + par(c.expr(x.Args[1]))
+	}
+	if fn == "make" && (len(x.Args) == 2 || len(x.Args) == 3) && strings.HasPrefix(src(x.Args[0]), "[]") && src(x.Args[1]) == "0" {
+		return "[]"
+	}
+	if fn == "append" && len(x.Args) >= 2 {
+		out := par(c.expr(x.Args[0]))
+		if x.Ellipsis.IsValid() {
+			if len(x.Args) != 2 {
+				fail("append with ... and several arguments")
+			}
+			return "(" + out + " ++ " + par(c.expr(x.Args[1])) + ")"
+		}
+		var es []string
+		for _, a := range x.Args[1:] {
+			es = append(es, c.expr(a))
+		}
+		return "(" + out + " ++ [" + strings.Join(es, ", ") + "])"
 	}
 	if l, ok := libFuncs[fn]; ok {
 		return l + " " + c.args(x.Args)
@@ -474,6 +513,9 @@ func (c *trCtx) assignTo(lhs ast.Expr, rhs string, tok token.Token) string {
 		c.declared[l.Name] = true
 		return "let " + lid(l.Name) + " := " + rhs
 	case *ast.IndexExpr:
+		if id, ok := l.X.(*ast.Ident); ok && c.isMap(id.Name) {
+			return "let " + lid(id.Name) + " := Lib.mapSet " + lid(id.Name) + " " + par(c.expr(l.Index)) + " " + par(rhs)
+		}
 		if id, ok := l.X.(*ast.Ident); ok {
 			return "let " + lid(id.Name) + " := Lib.set " + lid(id.Name) + " " + par(c.expr(l.Index)) + " " + par(rhs)
 		}
@@ -520,6 +562,11 @@ func (c *trCtx) stmts(list []ast.Stmt, ind string) string {
 		if ignoredCall(fn) {
 			return c.stmts(rest, ind)
 		}
+		if se, ok := call.Fun.(*ast.SelectorExpr); ok && mutatorMethods[se.Sel.Name] {
+			if id, ok := se.X.(*ast.Ident); ok && c.declared[id.Name] {
+				return c.assignTo(se.X, c.call(call), token.ASSIGN) + nl + c.stmts(rest, ind)
+			}
+		}
 		if fn == "copy" && len(call.Args) == 2 {
 			return c.assignTo(call.Args[0], "Lib.copy "+par(c.expr(call.Args[0]))+" "+par(c.expr(call.Args[1])), token.ASSIGN) + nl + c.stmts(rest, ind)
 		}
@@ -536,6 +583,11 @@ func (c *trCtx) stmts(list []ast.Stmt, ind string) string {
 			return "emit (" + ev + ") <|" + nl + c.stmts(rest, ind)
 		}
 		fail("call statement %s is neither a declared effect nor ignorable", fn)
+	case *ast.DeferStmt:
+		if ignoredCall(src(x.Call.Fun)) {
+			return c.stmts(rest, ind)
+		}
+		fail("defer %s", src(x.Call.Fun))
 	case *ast.SendStmt:
 		if c.f.pure {
 			fail("channel send in a function declared pure")
@@ -885,8 +937,25 @@ func translateFunc(f trFunc, fd *ast.FuncDecl, pkgFns map[string]string) string 
 			c.declared[n.Name] = true
 		}
 	}
+	var stateNames, stateTypes []string
+	for _, st := range f.state {
+		if st == "recv" {
+			continue
+		}
+		kv := strings.SplitN(st, ":", 2)
+		params = append(params, "("+lid(kv[0])+" : "+kv[1]+")")
+		c.declared[kv[0]] = true
+		stateNames = append(stateNames, lid(kv[0]))
+		stateTypes = append(stateTypes, kv[1])
+	}
 	if fd.Recv != nil {
 		addParam(fd.Recv.List[0].Names, fd.Recv.List[0].Type)
+		for _, st := range f.state {
+			if st == "recv" {
+				stateNames = append(stateNames, lid(fd.Recv.List[0].Names[0].Name))
+				stateTypes = append(stateTypes, leanTypes[src(fd.Recv.List[0].Type)])
+			}
+		}
 	}
 	for _, p := range fd.Type.Params.List {
 		addParam(p.Names, p.Type)
@@ -911,7 +980,31 @@ func translateFunc(f trFunc, fd *ast.FuncDecl, pkgFns map[string]string) string 
 	if len(rts) > 0 {
 		rt = strings.Join(rts, " × ")
 	}
-	if f.pure {
+	if len(stateNames) > 0 {
+		if !f.pure {
+			fail("state threading is only implemented for functions without trace effects")
+		}
+		noRes := len(rts) == 0
+		if noRes {
+			rt = strings.Join(stateTypes, " × ")
+		} else {
+			rt = rt + " × " + strings.Join(stateTypes, " × ")
+		}
+		// every return (and the end of the body) yields the results followed by the current state
+		c.ret = func(s string) string {
+			if noRes || s == "()" {
+				return tuple(stateNames)
+			}
+			if strings.HasPrefix(s, "(") && balancedOuter(s) && strings.Contains(s, ",") {
+				return "(" + s[1:len(s)-1] + ", " + strings.Join(stateNames, ", ") + ")"
+			}
+			return "(" + s + ", " + strings.Join(stateNames, ", ") + ")"
+		}
+		c.fall = tuple(stateNames)
+		if !noRes {
+			c.fall = "(default, " + strings.Join(stateNames, ", ") + ")"
+		}
+	} else if f.pure {
 		c.ret = func(s string) string { return s }
 		c.fall = "default"
 		if rt == "Unit" {
